@@ -744,6 +744,7 @@ Definition inject_option (args : list node) (name : String.string) (value : node
       if has_ident_key name props then args else a0 :: Elem false (Obj (props ++ [kv])) :: r
   | a0 :: Elem false other :: r => a0 :: Elem false (Obj [kv; Spread other]) :: r
   | [a0] => [a0; Elem false (Obj [kv])]
+  | [] => []                                  (* no first argument: nothing is injected *)
   | _ => args ++ [Elem false (Obj [kv])]
   end.
 Arguments inject_option _ _%string_scope _.
